@@ -68,11 +68,28 @@ def enumerate_faults(src, tree=None, lite=False):
             yield {'op': 'fault', 'fault': 'idx-on-scalar', 'path': pp, 'field': field}
             if not card:
                 yield {'op': 'fault', 'fault': 'del-required', 'path': p}
+    # the root itself: replacing the whole tree must be as atomic as any other put
+    for bc in bad_code[:1] if lite else bad_code:
+        if bc:
+            yield {'op': 'replace', 'path': [], 'code': [bc, None, 'src'], 'opts': {}}
+    yield {'op': 'fault', 'fault': 'consumed', 'path': [], 'typ': 'stmt'}
+    if not lite:
+        yield {'op': 'fault', 'fault': 'nonroot', 'path': [], 'typ': 'stmt'}
+        yield {'op': 'replace', 'path': [], 'code': ['x', None, 'src'], 'opts': {'to': 'SELF'}}
+        yield {'op': 'replace', 'path': [], 'code': ['x', None, 'src'], 'opts': {'nonopt': 1}}
+        yield {'op': 'fault', 'fault': 'del-required', 'path': []}
     for path, node in O.iter_nodes(tree):
         p = [list(x) for x in path]
         ncls = node.__class__.__name__
         if not lite:
             yield {'op': 'fault', 'fault': 'unknown-field', 'path': p}
+        if ncls in ('Call', 'ClassDef'):  # code that parses but is refused for category / ordering reasons (after the target was prepared)
+            vf = '_args' if ncls == 'Call' else '_bases'
+            yield {'op': 'fault', 'fault': 'arglike-order', 'path': p, 'field': vf, 'text': 'k=v', 'idx': 0}
+            yield {'op': 'fault', 'fault': 'arglike-order', 'path': p, 'field': 'keywords', 'text': 'x', 'idx': 0}
+            if not lite:
+                yield {'op': 'fault', 'fault': 'arglike-order', 'path': p, 'field': vf, 'text': '**kw', 'idx': 0}
+                yield {'op': 'fault', 'fault': 'arglike-order', 'path': p, 'field': 'keywords', 'text': '*s', 'idx': 'end'}
         for field, typ, card in O.GRAMMAR.get(ncls, ()):
             if card == '*' and typ in E.EDIT_TYPES:
                 n = len(getattr(node, field))
@@ -126,6 +143,8 @@ def apply(fst, root, op):
         return n.put('x', op['idx'], op['field'], norm=True)
     if k == 'reversed':
         return n.put_slice(E.K_SEQ.get(op['typ'], [('x', None)])[0][0], op['start'], op['stop'], op['field'], norm=True)
+    if k == 'arglike-order':
+        return n.put_slice(op['text'], op['idx'], op['idx'], op['field'], norm=True)
     if k == 'slice-bad-code':
         return n.put_slice('a +', 0, op['n'], op['field'], norm=True)
     raise ValueError(k)
@@ -134,13 +153,16 @@ def apply(fst, root, op):
 def fault_id(op):
     if op['op'] != 'fault':
         return E.op_id(op)
-    extra = ' '.join(f'{k}={op[k]}' for k in ('field', 'idx', 'start', 'stop') if k in op)
+    extra = ' '.join(f'{k}={op[k]}' for k in ('field', 'idx', 'start', 'stop', 'text') if k in op)
     return f"fault:{op['fault']} {O.path_str([tuple(x) for x in op['path']])} {extra}".strip()
 
 
 def shards(tier):
-    parts = 4 if tier == 'quick' else 16
-    return [{'prog': i, 'part': [r, parts]} for i in range(len(PROGRAMS)) for r in range(parts)]
+    out = []
+    for i, src in enumerate(PROGRAMS):
+        parts = (4 if len(src) < 50 else 16) if tier == 'quick' else (16 if len(src) < 50 else 32)  # big programs are the long pole
+        out += [{'prog': i, 'part': [r, parts]} for r in range(parts)]
+    return out
 
 
 _PROBE_CACHE = {}
@@ -203,6 +225,8 @@ def _check_raise(fst, src0, root, pre, hist, exc, cid, res, tier):
     # probe: valid edits behave exactly as on a fresh twin
     twin = fst.FST(pre[2], 'exec')
     twin.indent = root.indent
+    n_ok = 0
+    pre_src = pre[2]
     for pop in _probe_ops(pre[2]):
         try:
             _E_APPLY(fst, twin, pop)
@@ -218,19 +242,27 @@ def _check_raise(fst, src0, root, pre, hist, exc, cid, res, tier):
             return bad('follow-up-edit-differs-from-fresh-tree',
                        f'probe={E.op_id(pop)} fresh={texc!r} after-failure={rexc!r}')
         if texc is not None:
-            twin = fst.FST(pre[2], 'exec')
+            twin = fst.FST(pre_src, 'exec')
             twin.indent = root.indent
-            if X.canon(root) != pre:
+            if root.src != pre_src or ast.dump(root.a, include_attributes=True) != ast.dump(twin.a, include_attributes=True):
                 return bad('failed-probe-changed-tree', f'probe={E.op_id(pop)}')
             continue
-        if root.src != twin.src or ast.dump(root.a, include_attributes=True) != ast.dump(twin.a, include_attributes=True):
+        if root.src != twin.src:
             return bad('follow-up-edit-differs-from-fresh-tree',
                        f'probe={E.op_id(pop)}\nfresh={twin.src!r}\nafter-failure={root.src!r}')
+        res.transitions += 1
+        n_ok += 1
+        pre_src = root.src
+        if tier == 'quick' and n_ok % 4:
+            continue  # source compared after every probe; trees (with positions) after every 4th and after the last one
+        if ast.dump(root.a, include_attributes=True) != ast.dump(twin.a, include_attributes=True):
+            return bad('follow-up-edit-differs-from-fresh-tree',
+                       f'probe={E.op_id(pop)}\nfresh={twin.src!r}\nafter-failure={root.src!r} (trees differ)')
         c01 = live_vs_parse(root, 'Module')
         if c01:
             return bad('C01-after-follow-up-edit', c01)
-        pre = X.canon(root)
-        res.transitions += 1
+    if n_ok and (ast.dump(root.a, include_attributes=True) != ast.dump(twin.a, include_attributes=True) or live_vs_parse(root, 'Module')):
+        return bad('follow-up-edit-differs-from-fresh-tree', f'after the last probe\nfresh={twin.src!r}\nafter-failure={root.src!r}')
     res.sample({'start': pre[2][:80], 'request': fault_id(op), 'raised': repr(exc)[:80]})
 
 
@@ -244,7 +276,8 @@ def run_shard(desc, tier, res):
     def enum(src, d):
         t = ast.parse(src)
         if d == 0:
-            yield from enumerate_faults(src, t)
+            for f in enumerate_faults(src, t):
+                yield dict(f, leaf=True)  # level-1 faults: judged once, never a start state for level 2 (valid edits are)
             yield from E.enumerate_ops(src, tree=t, **a1)
         else:
             yield from enumerate_faults(src, t, lite=tier == 'quick')
